@@ -19,6 +19,10 @@ import PdfModel.Core.Out
   Lexer::next_stream                          `nextStream`
   Lexer::set_pos / offset_pos / read_n        `setPos` / `offsetPos` / `readN`
   Lexer::get_remaining_slice                  `remainingStart` (the panic of `&buf[pos..]`)
+  Lexer::set_pos_from_end                     `setPosFromEnd`
+  Lexer::seek_substr / seek_substr_back       `seekSubstr` / `seekSubstrBack` (over `findFwd` / `findBack`)
+  Lexer::ctx                                  `ctxRange`
+  Lexer::seek_newline / incr_pos              `seekNewline` / `incrPos`
   Substr::is_integer / real_number            `isInteger` / `realNumber` (on the token bytes)
   Substr::to::<i32> / to::<u64>               `parseI32` / `parseU64` (str::from_utf8 + FromStr, `none` = Err)
   Substr::equals                              list equality on `slice`
@@ -217,8 +221,17 @@ def setPos (buf : Buf) (pos wanted : Nat) : Out Nat :=
 def offsetPos (buf : Buf) (pos offset : Nat) : Out Nat :=
   setPos buf pos ((pos + offset) % (usizeMax + 1))
 
-/-- `Lexer::read_n(n)`: `(start, stop)` of the returned substring and the new position -/
+/-- `Lexer::read_n(n)`: `(start, stop)` of the returned substring and the new position
+    (`pos.saturating_add(n)`; at or beyond the end the cursor is put on the last byte, `len.saturating_sub(1)`) -/
 def readN (buf : Buf) (pos n : Nat) : Out ((Nat × Nat) × Nat) :=
+  let startPos := pos
+  let p := min (pos + n) usizeMax
+  let p' := if p ≥ buf.size then buf.size - 1 else p
+  (if startPos < buf.size then newSubstr buf startPos p' else newSubstr buf 0 0).bind fun s => .ok (s, p')
+
+/-- `Lexer::read_n` before the repair: `self.pos += n` and `self.buf.len() - 1` were plain arithmetic
+    (overflow panics with overflow checks on; kept for the witness in `Props/C01`) -/
+def readNOld (buf : Buf) (pos n : Nat) : Out ((Nat × Nat) × Nat) :=
   let startPos := pos
   if pos + n > usizeMax then .panic else
   let p := pos + n
@@ -228,6 +241,78 @@ def readN (buf : Buf) (pos n : Nat) : Out ((Nat × Nat) × Nat) :=
 /-- `Lexer::get_remaining_slice`: `&self.buf[self.pos..]` -/
 def remainingStart (buf : Buf) (pos : Nat) : Out Nat :=
   if pos > buf.size then .panic else .ok pos
+
+/-- `Lexer::set_pos_from_end(n)`: `set_pos(len.saturating_sub(n).saturating_sub(1))` -/
+def setPosFromEnd (buf : Buf) (pos n : Nat) : Out Nat :=
+  setPos buf pos (buf.size - n - 1)
+
+/-- `rest.windows(pat.len()).position(|w| w == pat)` over `buf[i ..]`, as an absolute index: the first `j ≥ i`
+    with `buf[j .. j + pat.len()] == pat` (fuel `buf.size - i + 1`; a window must fit into the buffer) -/
+def findFwd (buf : Buf) (pat : List UInt8) : Nat → Nat → Option Nat
+  | 0, _ => none
+  | fuel + 1, i =>
+    if i + pat.length > buf.size then none
+    else if slice buf i (i + pat.length) == pat then some i
+    else findFwd buf pat fuel (i + 1)
+
+/-- `Lexer::seek_substr(pat)`: the traversed substring (`None` when `pat` does not occur) and the new position.
+    `slice::windows(0)` panics; `self.buf.get(start..)` is `None` when `start > len` (never under the invariant). -/
+def seekSubstr (buf : Buf) (pos : Nat) (pat : List UInt8) : Out (Option (Nat × Nat) × Nat) :=
+  if pos > buf.size then .ok (none, max pos buf.size)
+  else if pat.length == 0 then .panic
+  else match findFwd buf pat (buf.size - pos + 1) pos with
+    | some i =>
+      -- `self.pos = start + offset + substr.len()`; `new_substr(start .. self.pos - substr.len())`
+      let p := i + pat.length
+      (newSubstr buf pos (p - pat.length)).bind fun s => .ok (some s, p)
+    | none => .ok (none, max pos buf.size)
+
+/-- `buf[.. stop].windows(pat.len()).rposition(|w| w == pat)`: the greatest start `< k` of a window equal to `pat`
+    (called with `k = stop - pat.len() + 1`, so that every candidate window ends at or before `stop`) -/
+def findBack (buf : Buf) (pat : List UInt8) : Nat → Option Nat
+  | 0 => none
+  | i + 1 => if slice buf i (i + pat.length) == pat then some i else findBack buf pat i
+
+/-- `Lexer::seek_substr_back(pat)`: the substring between the end of the match and the old position, and the
+    new position (just behind the match).  `&self.buf[.. end]` panics when `end > len`, `windows(0)` panics. -/
+def seekSubstrBack (buf : Buf) (pos : Nat) (pat : List UInt8) : Out ((Nat × Nat) × Nat) :=
+  if pos > buf.size then .panic
+  else if pat.length == 0 then .panic
+  else if pat.length > pos then .err
+  else match findBack buf pat (pos - pat.length + 1) with
+    | some i =>
+      let p := i + pat.length
+      (newSubstr buf p pos).bind fun s => .ok (s, p)
+    | none => .err
+
+/-- `Lexer::incr_pos`: the cursor never goes beyond the last byte (`pos >= len.saturating_sub(1)` → `false`) -/
+def incrPos (buf : Buf) (pos : Nat) : Bool × Nat :=
+  if pos ≥ buf.size - 1 then (false, pos) else (true, pos + 1)
+
+/-- the `while self.buf.get(pos).map_or(false, |&b| b != b'\n') && self.incr_pos() {}` loop of `seek_newline`
+    (fuel `buf.size - pos`) -/
+def seekNewlineLoop (buf : Buf) : Nat → Nat → Nat
+  | 0, pos => pos
+  | fuel + 1, pos =>
+    match buf[pos]? with
+    | none => pos
+    | some b =>
+      if b != 10 then
+        (if (incrPos buf pos).1 then seekNewlineLoop buf fuel (pos + 1) else pos)
+      else pos
+
+/-- `Lexer::seek_newline` (not used by the library itself): the skipped substring and the new position -/
+def seekNewline (buf : Buf) (pos : Nat) : Out ((Nat × Nat) × Nat) :=
+  let p := seekNewlineLoop buf (buf.size - pos) pos
+  let p2 := (incrPos buf p).2
+  (newSubstr buf pos p2).bind fun s => .ok (s, p2)
+
+/-- `Lexer::ctx` (debugging aid): `&self.buf[self.pos.saturating_sub(40) .. self.buf.len().min(self.pos + 40)]` -/
+def ctxRange (buf : Buf) (pos : Nat) : Out (Nat × Nat) :=
+  if pos + 40 > usizeMax then .panic else
+  let a := pos - 40
+  let b := min buf.size (pos + 40)
+  if a > b || b > buf.size then .panic else .ok (a, b)
 
 /-! ### `Substr` classification (on the bytes of the lexeme) -/
 
